@@ -227,6 +227,10 @@ pub fn alphabet(name: &str) -> Vec<&'static str> {
         "cluster" => vec!["\r\n", "e\u{0301}", "🇩🇪", "👨\u{200D}👩", "a\u{0308}", "x"],
         // tab as whitespace, ideographic space is in "wide"
         "tab" => vec!["\t", "x", "y", "z", "u", "v"],
+        // whitespace functions: space, tab, NBSP (2-byte ws), ideographic space (3-byte ws), a, b, ZWSP (non-ws), e+acute
+        "ws" => vec![" ", "\t", "\u{00A0}", "\u{3000}", "a", "b", "\u{200B}", "e\u{0301}", "\r\n"],
+        // clean texts: space, then letters incl. multi-byte and a cluster
+        "cleanpair" => vec![" ", "a", "b", "ä", "e\u{0301}"],
         // tokenizer texts: a, a-umlaut, e + combining acute, space, <, p, >, emoji
         "tok" => vec!["a", "ä", "e\u{0301}", " ", "<", "p", ">", "😀"],
         "wide" => vec!["\u{3000}", "字", "é", "\u{200B}", "q", "r"],
